@@ -149,6 +149,23 @@ def run(ctx, rep):
     else:
         tc = [(b, t) for b, t in VT.calls() if (t.get('callee') or '').endswith('::total_clusters')]
         f32 = [(b, t) for b, t in VT.calls() if (t.get('callee') or '').endswith('::is_fat32')]
+        if (len(tc) > 1 or len(f32) > 1) and tc and f32:
+            # the two getters are pure: a second call (e.g. inside a helper that was made transparent) returns what the first
+            # returned - judged on a copy of the function in which later calls are copies of the first result
+            import copy as _copy
+            from model import Fn as _Fn
+            VT2 = _Fn(VT.name, _copy.deepcopy(VT.d), VT.types, VT.adts, VT.source)
+            VT2.blocks = _copy.deepcopy(VT.blocks)
+            VT2.locals = VT.locals
+            VT2.facts_ref = getattr(VT, 'facts_ref', None)
+            for lst in (tc, f32):
+                first_b, first_t = lst[0]
+                for b_, t_ in lst[1:]:
+                    VT2.blocks[b_]['stmts'].append({'k': 'assign', 'lhs': _copy.deepcopy(t_['dest']), 'span': t_['span'],
+                                                     'rv': {'k': 'use', 'a': {'c': _copy.deepcopy(first_t['dest'])}}})
+                    VT2.blocks[b_]['term'] = {'k': 'goto', 'ret': t_['ret'], 'span': t_['span']}
+            VT = VT2
+            tc, f32 = tc[:1], f32[:1]
         if len(tc) != 1 or len(f32) != 1:
             rep.machinery('ANCHOR validate_total_clusters: total_clusters()/is_fat32() calls')
         else:
